@@ -32,7 +32,8 @@ def stack_lemma(L):
             continue
         S1 = final_state(L, o)
         ds1 = L.field(S1, "State", "data_stack")
-        cex = lambda m: {"lines": ["limit stack 2", "eval 1 2", "eval 3", "stack", "eval #( 4 #)", "stack"], "expect": [("no_panic",), ("stack_at_most", 2)]}
+        # witness template: items below the context's stack base count towards the limit too
+        cex = lambda m: {"lines": ["limit stack 3", "eval 1 2", "eval #( 10 20 + #)"], "expect": [("no_panic",), ("last_result_in", ["err"])]}
         if o.value.variant == "Ok":
             L.require(o, z3.ULT(ln, lim), "push succeeds only while the whole stack holds fewer than the limit", cex=cex)
             L.require(o, veq(L.ex, ds1, Vec(ds1.elem_ty, pre.ds.prefix, [v])), "push adds exactly the pushed cell")
